@@ -207,3 +207,23 @@ package caskettls
 //@ func NewConfig$1
 //@   requires len(cert.Names) >= 1 && inst != nil
 //@   requires forallT(m, map[string]*Config, forallT(h, string, has(m, h) ==> m[h] != nil))
+
+//@ unit cipher_names props=C06 filter=`caskettls\.init$`
+//@ // C06 "handshakes follow the site's cipher list": the table that turns the names of the `ciphers` sub-directive into suite
+//@ // numbers maps every name to the IANA number of exactly that suite (RFC 5246/5289/7905 registry values, decimal): a
+//@ // slip here gives a site a suite it never named and refuses the one it configured
+//@ func init
+//@   at call mapupdate:ECDHE-ECDSA-AES256-GCM-SHA384 before [name_means_its_own_suite] arg2 == 49196
+//@   at call mapupdate:ECDHE-RSA-AES256-GCM-SHA384 before [name_means_its_own_suite] arg2 == 49200
+//@   at call mapupdate:ECDHE-ECDSA-AES128-GCM-SHA256 before [name_means_its_own_suite] arg2 == 49195
+//@   at call mapupdate:ECDHE-RSA-AES128-GCM-SHA256 before [name_means_its_own_suite] arg2 == 49199
+//@   at call mapupdate:ECDHE-ECDSA-WITH-CHACHA20-POLY1305 before [name_means_its_own_suite] arg2 == 52393
+//@   at call mapupdate:ECDHE-RSA-WITH-CHACHA20-POLY1305 before [name_means_its_own_suite] arg2 == 52392
+//@   at call mapupdate:ECDHE-RSA-AES256-CBC-SHA before [name_means_its_own_suite] arg2 == 49172
+//@   at call mapupdate:ECDHE-RSA-AES128-CBC-SHA before [name_means_its_own_suite] arg2 == 49171
+//@   at call mapupdate:ECDHE-ECDSA-AES256-CBC-SHA before [name_means_its_own_suite] arg2 == 49162
+//@   at call mapupdate:ECDHE-ECDSA-AES128-CBC-SHA before [name_means_its_own_suite] arg2 == 49161
+//@   at call mapupdate:RSA-AES256-CBC-SHA before [name_means_its_own_suite] arg2 == 53
+//@   at call mapupdate:RSA-AES128-CBC-SHA before [name_means_its_own_suite] arg2 == 47
+//@   at call mapupdate:ECDHE-RSA-3DES-EDE-CBC-SHA before [name_means_its_own_suite] arg2 == 49170
+//@   at call mapupdate:RSA-3DES-EDE-CBC-SHA before [name_means_its_own_suite] arg2 == 10
